@@ -52,7 +52,20 @@ def op_text(o, rnd=None):
 def tf_attr(ops, rnd=None):
     if not ops:
         return ''
-    return ' transform="%s"' % ' '.join(op_text(o, rnd) for o in ops)
+    items = [op_text(o, rnd) for o in ops]
+    if rnd is None:
+        return ' transform="%s"' % ' '.join(items)
+    # legal spellings of the list (SVG 1.1, 7.6): items separated by white space and / or one comma; white space around names and parentheses
+    out = ''
+    for n, it in enumerate(items):
+        if rnd.random() < 0.25:
+            it = it.replace('(', rnd.choice([' (', '( ', ' ( ']), 1).replace(')', ' )')
+        out += it
+        if n < len(items) - 1:
+            out += rnd.choice([' ', ' ', ', ', ',', ' , ', '\n  ', '  ', ''])
+    if rnd.random() < 0.15:
+        out = ' ' + out + ' '
+    return ' transform="%s"' % out
 
 
 def shape_xml(kind, k, attrs, tf, extra='', G=None):
